@@ -4,15 +4,19 @@ import (
 	"context"
 	"errors"
 	"fmt"
+	"io"
+	"os"
 	"sort"
 	"strings"
 	"time"
 
 	pvfs "github.com/cockroachdb/pebble/vfs"
 	"github.com/jamf/regatta/regattapb"
+	"github.com/jamf/regatta/replication/snapshot"
 	serrors "github.com/jamf/regatta/storage/errors"
 	"github.com/jamf/regatta/storage/kv"
 	"github.com/jamf/regatta/storage/table"
+	"github.com/jamf/regatta/storage/table/fsm"
 	"github.com/lni/dragonboat/v4"
 )
 
@@ -294,6 +298,46 @@ func runC14(args []string) error {
 			bo = append(bo, oU(x))
 		}
 		df.Add(fmt.Sprintf("{| d_tabs := %s; d_running := %s; d_impl := %s |}", cList(ct), cList(cr), oL(oLs(ao), oLs(bo))), fmt.Sprint(tabs, run))
+		// oracle, by sets: start = catalogued table shards (serving or recovering) that do not run; stop = running table
+		// shards that are not catalogued
+		{
+			cat, rn := map[uint64]bool{}, map[uint64]bool{}
+			for _, t := range tabs {
+				cat[t.ClusterID], cat[t.RecoverID] = true, true
+			}
+			for _, s := range run {
+				rn[s.ShardID] = true
+			}
+			var wa, wb []uint64
+			for id := range cat {
+				if id > table.VerifTableIDsRangeStart && !rn[id] {
+					wa = append(wa, id)
+				}
+			}
+			for id := range rn {
+				if id > table.VerifTableIDsRangeStart && !cat[id] {
+					wb = append(wb, id)
+				}
+			}
+			sort.Slice(wa, func(i, j int) bool { return wa[i] < wa[j] })
+			sort.Slice(wb, func(i, j int) bool { return wb[i] < wb[j] })
+			uniq := func(x []uint64) []uint64 {
+				var o []uint64
+				for i, v := range x {
+					if i == 0 || v != x[i-1] {
+						o = append(o, v)
+					}
+				}
+				return o
+			}
+			in := map[string]any{"catalogue": fmt.Sprint(tabs), "running": fmt.Sprint(run)}
+			if fmt.Sprint(a) != fmt.Sprint(wa) {
+				sum.violate(100000+i, "reconciliation does not start exactly the catalogued shards that are not running", in, fmt.Sprintf("starts %v, expected %v", a, wa))
+			}
+			if fmt.Sprint(uniq(b)) != fmt.Sprint(wb) {
+				sum.violate(100000+i, "reconciliation does not stop exactly the running shards that are no longer catalogued", in, fmt.Sprintf("stops %v, expected %v", b, wb))
+			}
+		}
 		sum.Evaluations++
 		if len(tabs) > 0 && len(run) > 0 {
 			sum.DistinctNontrivial++
@@ -331,7 +375,7 @@ func c14RealManager(sum *Summary) error {
 	seenIDs := map[uint64]string{}
 	var lastID uint64
 	in := func(step string) map[string]any {
-		return map[string]any{"scenario": "create a,b; fill; delete a; recreate a; slash names", "step": step}
+		return map[string]any{"scenario": "create a,b; fill; delete a; recreate a; interrupted restore of b; create d; restore b; slash names; prefix names", "step": step}
 	}
 	noteID := func(step string, id uint64) {
 		if prev, ok := seenIDs[id]; ok {
@@ -425,6 +469,83 @@ func c14RealManager(sum *Summary) error {
 	if n, err := count(ab); err != nil || n != 1 {
 		sum.violate(0, "operations on one table changed the content of another", in("count b"), fmt.Sprint(n, err))
 	}
+	// restore: the table moves to a NEW shard id (also when an earlier attempt broke off) and holds the stream only
+	{
+		mkStream := func(kvs [][2]string) (interface {
+			io.Reader
+			Close() error
+			Path() string
+		}, error) {
+			src, _, err := newRealFSM(pvfs.NewMem(), fsm.RecoveryTypeSnapshot)
+			if err != nil {
+				return nil, err
+			}
+			defer src.close()
+			var es []gEntry
+			for i, kv := range kvs {
+				es = append(es, gEntry{Idx: uint64(i + 1), Cmd: gCmd{Kind: regattapb.Command_PUT, K: []byte(kv[0]), V: []byte(kv[1])}})
+			}
+			if _, _, err := src.apply(es); err != nil {
+				return nil, err
+			}
+			file, path, _, _, err := captureTable(src, true, []int{1 << 20}, nil)
+			if err != nil {
+				return nil, err
+			}
+			_ = file.Close()
+			return snapshot.OpenFile(path)
+		}
+		restore := func(name string, rd io.Reader) error {
+			done := make(chan error, 1)
+			go func() { done <- tm.Restore(name, rd) }()
+			select {
+			case err := <-done:
+				return err
+			case <-time.After(60 * time.Second):
+				return fmt.Errorf("harness: restore of %s did not return within 60s", name)
+			}
+		}
+		sfA, err := mkStream([][2]string{{"ra", "1"}, {"rb", "2"}, {"rc", "3"}})
+		if err != nil {
+			return err
+		}
+		errA := restore("b", &failingReader{r: sfA, n: 2})
+		_ = sfA.Close()
+		_ = os.Remove(sfA.Path())
+		if errA == nil {
+			return fmt.Errorf("harness: the interrupted restore did not fail")
+		}
+		td, err := tm.CreateTable("d")
+		if err != nil {
+			return err
+		}
+		noteID("create d after an interrupted restore of b", td.ClusterID)
+		sfB, err := mkStream([][2]string{{"rb", "9"}})
+		if err != nil {
+			return err
+		}
+		errB := restore("b", sfB)
+		_ = sfB.Close()
+		_ = os.Remove(sfB.Path())
+		if errB != nil {
+			return fmt.Errorf("restore b: %w", errB)
+		}
+		rb, err := tm.GetTable("b")
+		if err != nil {
+			return err
+		}
+		noteID("restore b (after an interrupted attempt and create d)", rb.ClusterID)
+		ab, err = active("b")
+		if err != nil {
+			return err
+		}
+		if n, err := count(ab); err != nil || n != 1 {
+			sum.violate(0, "a restored table holds more than the restored stream", in("restore b (1 pair) after an interrupted restore of 3 other pairs"), fmt.Sprint(n, err))
+		}
+		if n, err := count(aa2); err != nil || n != 0 {
+			sum.violate(0, "operations on one table changed the content of another", in("count a after restore b"), fmt.Sprint(n, err))
+		}
+	}
 	// names that alias internal records
 	for _, bad := range []string{"sys/idseq", "a/lease", "x/y"} {
 		derr := tm.DeleteTable(bad)
@@ -464,7 +585,7 @@ func c14RealManager(sum *Summary) error {
 		listed = append(listed, t.Name)
 	}
 	sort.Strings(listed)
-	if strings.Join(listed, ",") != "a-archive,a.b,ab,b,c" {
+	if strings.Join(listed, ",") != "a-archive,a.b,ab,b,c,d" {
 		sum.violate(0, "listing does not reflect precisely the created-and-not-deleted tables", in("list"), strings.Join(listed, ","))
 	}
 	sum.Evaluations += 12
